@@ -24,11 +24,11 @@ import (
 // ---- recording / failing driver ----
 
 type env struct {
-	events              []string
-	failBegin           bool
-	failCommit          bool
-	failRollback        bool
-	failExec            bool
+	events       []string
+	failBegin    bool
+	failCommit   bool
+	failRollback bool
+	failExec     bool
 }
 
 var (
